@@ -197,15 +197,29 @@ class Ctx:
             name, self.pc, goal, line=self.cur_line, note=note))
 
     def feasible(self, cond):
+        eng = self.engine
+        qf_ax = [a for a in eng.axioms if not _has_quantifier(a)]
+        qf_pc = [f for f in self.pc if not _has_quantifier(f)]
         s = z3.Solver()
-        s.set("timeout", self.engine.prune_timeout_ms)
-        for ax in self.engine.axioms:
+        s.set("timeout", eng.prune_timeout_ms)
+        for f in qf_ax + qf_pc:
+            s.add(f)
+        s.add(cond)
+        r = s.check()
+        if r == z3.unsat:
+            return False
+        if not eng.prune_quantified:
+            return True
+        if len(qf_ax) == len(eng.axioms) and len(qf_pc) == len(self.pc):
+            return True
+        s = z3.Solver()
+        s.set("timeout", eng.prune_timeout_ms)
+        for ax in eng.axioms:
             s.add(ax)
         for f in self.pc:
             s.add(f)
         s.add(cond)
-        r = s.check()
-        return r != z3.unsat
+        return s.check() != z3.unsat
 
     def branch(self, cond, tag=""):
         """returns a Python bool; forks the path when both sides are feasible"""
@@ -259,6 +273,29 @@ class Ctx:
         return v
 
 
+_q_cache = {}
+
+
+def _has_quantifier(f):
+    key = f.get_id()
+    if key in _q_cache:
+        return _q_cache[key]
+    todo = [f]
+    seen = set()
+    res = False
+    while todo:
+        t = todo.pop()
+        if t.get_id() in seen:
+            continue
+        seen.add(t.get_id())
+        if z3.is_quantifier(t):
+            res = True
+            break
+        todo.extend(t.children())
+    _q_cache[key] = res
+    return res
+
+
 def _as_term(v):
     if isinstance(v, (VInt, VBool, VStr, VElem, VSet, VCount)):
         return v.t
@@ -273,6 +310,7 @@ class Engine:
         self.contract = contract
         self.axioms = list(getattr(contract, "axioms", []) or [])
         self.prune_timeout_ms = 400
+        self.prune_quantified = getattr(contract, "prune_quantified", True)
         self.worklist = []
         self.obligations = []
         self.exits = []
